@@ -596,6 +596,9 @@ def _pure_stdlib():
         for fn in ("basename", "dirname", "split", "splitext", "join", "normpath"):
             out[f"{modname}.{fn}"] = getattr(posixpath, fn)
     out["os.fspath"] = os.fspath
+    import urllib.parse
+    for fn in ("urlsplit", "urlparse", "urlunsplit", "urlunparse", "unquote", "quote", "urljoin", "urldefrag"):
+        out[f"urllib.parse.{fn}"] = getattr(urllib.parse, fn)
     for cls in ("PurePosixPath", "PurePath", "Path", "PosixPath"):
         out[f"pathlib.{cls}"] = pathlib.PurePosixPath
     import decimal
